@@ -90,8 +90,10 @@ func (p *Prog) buildCalls() *callIndex {
 					cs.Full = "builtin." + o.Name()
 				case nil:
 					cs.Dynamic = true
+					cs.Callees = p.resolveDynamic(f, call, 0)
 				default:
 					cs.Dynamic = true
+					cs.Callees = p.resolveDynamic(f, call, 0)
 				}
 			}
 			ci.sites[f] = append(ci.sites[f], cs)
@@ -181,4 +183,122 @@ func (p *Prog) ReachableFuncs(roots []*Func, followGo bool) map[*Func]*CallSite 
 		}
 	}
 	return seen
+}
+
+// funcValues returns the module functions an expression of function type may
+// denote: a literal, a named function, the literals a called module function
+// returns, the values stored in a func-typed struct field anywhere in scope,
+// or the single-assignment definitions of a local variable.
+func (p *Prog) funcValues(f *Func, e ast.Expr, depth int) []*Func {
+	if depth > 3 {
+		return nil
+	}
+	info := f.Pkg.TypesInfo
+	e = ast.Unparen(e)
+	switch x := e.(type) {
+	case *ast.FuncLit:
+		if lf := p.Lit(x); lf != nil {
+			return []*Func{lf}
+		}
+	case *ast.CallExpr:
+		// g(...) where g returns function literals
+		if g := p.FnOf(asFunc(p.Callee(f, x))); g != nil {
+			var out []*Func
+			walkNoLit(g.Body, func(n ast.Node) bool {
+				if rs, ok := n.(*ast.ReturnStmt); ok {
+					for _, r := range rs.Results {
+						out = append(out, p.funcValues(g, r, depth+1)...)
+					}
+				}
+				return true
+			})
+			return out
+		}
+	case *ast.Ident:
+		switch o := identObj(info, x).(type) {
+		case *types.Func:
+			if tf := p.FnOf(o); tf != nil {
+				return []*Func{tf}
+			}
+		case *types.Var:
+			if o.IsField() {
+				return p.fieldFuncValues(o, depth)
+			}
+			var out []*Func
+			root := f
+			for root.Parent != nil {
+				root = root.Parent
+			}
+			ast.Inspect(root.Body, func(n ast.Node) bool {
+				if as, ok := n.(*ast.AssignStmt); ok {
+					for i, l := range as.Lhs {
+						if identObj(info, l) == o && len(as.Rhs) == len(as.Lhs) {
+							holder := p.EnclosingFunc(as)
+							if holder == nil {
+								holder = root
+							}
+							out = append(out, p.funcValues(holder, as.Rhs[i], depth+1)...)
+						}
+					}
+				}
+				return true
+			})
+			return out
+		}
+	case *ast.SelectorExpr:
+		if fv := SelField(info, x); fv != nil {
+			return p.fieldFuncValues(fv, depth)
+		}
+		if fo, ok := info.Uses[x.Sel].(*types.Func); ok {
+			if tf := p.FnOf(fo); tf != nil {
+				return []*Func{tf}
+			}
+		}
+	}
+	return nil
+}
+
+var fieldFuncCache = map[*Prog]map[*types.Var][]*Func{}
+
+func (p *Prog) fieldFuncValues(fv *types.Var, depth int) []*Func {
+	m := fieldFuncCache[p]
+	if m == nil {
+		m = map[*types.Var][]*Func{}
+		fieldFuncCache[p] = m
+	}
+	if v, ok := m[fv]; ok {
+		return v
+	}
+	m[fv] = nil
+	var out []*Func
+	for _, g := range p.Funcs {
+		info := g.Pkg.TypesInfo
+		walkNoLit(g.Body, func(n ast.Node) bool {
+			switch s := n.(type) {
+			case *ast.KeyValueExpr:
+				if k, ok := s.Key.(*ast.Ident); ok && info.Uses[k] == fv {
+					out = append(out, p.funcValues(g, s.Value, depth+1)...)
+				}
+			case *ast.AssignStmt:
+				for i, l := range s.Lhs {
+					if SelField(info, l) == fv && len(s.Rhs) == len(s.Lhs) {
+						out = append(out, p.funcValues(g, s.Rhs[i], depth+1)...)
+					}
+				}
+			}
+			return true
+		})
+	}
+	m[fv] = out
+	return out
+}
+
+func (p *Prog) resolveDynamic(f *Func, call *ast.CallExpr, depth int) []*Func {
+	var out []*Func
+	for _, c := range p.funcValues(f, call.Fun, depth) {
+		if c != nil && !hasFunc(out, c) {
+			out = append(out, c)
+		}
+	}
+	return out
 }
